@@ -407,7 +407,7 @@ def _cpu_seconds(pid):
         return 0.0
 
 
-def _hard_check(assertions, tmo_ms, seed=0, leaves=None, grace_s=2.0):
+def _hard_check_once(assertions, tmo_ms, seed=0, leaves=None, grace_s=2.0, z3_factor=1):
     """z3 check in a forked child with a hard limit on the child's CPU time (z3's own `timeout` is wall-clock and is not
     honoured inside some non-linear / preprocessing phases: the same query then runs for a minute instead of a second;
     a wall-clock limit of ours turned proofs into time-outs on a machine with fewer free cores than workers).  Returns
@@ -420,9 +420,9 @@ def _hard_check(assertions, tmo_ms, seed=0, leaves=None, grace_s=2.0):
         try:
             os.close(rfd)
             sx = z3.Solver()
-            # z3's own limit is wall-clock: it is set well above the budget, which the parent enforces in CPU time of this
-            # child (a machine with fewer free cores than workers must not turn proofs into time-outs)
-            sx.set("timeout", int(tmo_ms) * WALL_FACTOR)
+            # z3's own limit is wall-clock; the parent enforces the budget in CPU time of this child and repeats the
+            # attempt with a larger wall-clock limit when the child was starved (see _hard_check)
+            sx.set("timeout", int(tmo_ms) * z3_factor)
             sx.set("random_seed", int(seed))
             for a_ in assertions:
                 sx.add(a_)
@@ -447,12 +447,14 @@ def _hard_check(assertions, tmo_ms, seed=0, leaves=None, grace_s=2.0):
             os._exit(code)
     os.close(wfd)
     cpu_budget = tmo_ms / 1000.0 + grace_s
-    deadline = time.time() + cpu_budget * WALL_FACTOR          # wall-clock cap for a starved child
+    deadline = time.time() + cpu_budget * max(2, z3_factor) * 1.5          # wall-clock cap of this attempt
     chunks = []
     timed_out = False
+    cpu_used = [0.0]
     while True:
         left = deadline - time.time()
-        if left <= 0 or _cpu_seconds(pid) > cpu_budget:
+        cpu_used[0] = max(cpu_used[0], _cpu_seconds(pid))
+        if left <= 0 or cpu_used[0] > cpu_budget:
             timed_out = True
             break
         rl, _, _ = select.select([rfd], [], [], min(left, 0.1))
@@ -473,11 +475,26 @@ def _hard_check(assertions, tmo_ms, seed=0, leaves=None, grace_s=2.0):
     except OSError:
         pass
     if timed_out:
-        return "unknown", None, "hard timeout (%d ms)" % tmo_ms
+        return "unknown", None, "hard timeout (%d ms)" % tmo_ms, cpu_used[0]
     try:
-        return pickle.loads(b"".join(chunks))
+        return tuple(pickle.loads(b"".join(chunks))) + (cpu_used[0],)
     except Exception as e:      # noqa
-        return "unknown", None, "no answer from the solver process: %s" % e
+        return "unknown", None, "no answer from the solver process: %s" % e, cpu_used[0]
+
+
+def _hard_check(assertions, tmo_ms, seed=0, leaves=None, grace_s=2.0):
+    """the attempt with z3's own (wall-clock) limit equal to the nominal budget - the configuration all proofs were
+    developed with; if z3 gives up on its wall-clock limit although the child has used well under the budget in CPU
+    time (a machine with fewer free cores than workers), the same attempt is repeated with twice the wall-clock limit,
+    up to 16 times the nominal one.  On a machine with enough cores nothing is ever repeated."""
+    factor = 1
+    while True:
+        verdict, model, reason, cpu = _hard_check_once(assertions, tmo_ms, seed, leaves, grace_s, z3_factor=factor)
+        starved = verdict == "unknown" and cpu < 0.6 * (tmo_ms / 1000.0) and \
+            any(w in (reason or "") for w in ("timeout", "canceled", "hard timeout"))
+        if not starved or factor >= 16:
+            return verdict, model, reason
+        factor *= 2
 
 
 _EUF_KINDS = None
@@ -607,27 +624,33 @@ def _solve_inner(idx):
     # a hypothesis, so `unsat` of any attempt is a proof and `sat` of any attempt is a counter-model of the obligation.
     base = list(s.assertions())
     budget = Z3_TIMEOUT_MS
+    ids = set(a_.get_id() for a_ in (sum_axioms or []))
+    lean_ = [a_ for a_ in base if a_.get_id() not in ids]
     if sum_axioms and _mentions_decl([goal], "u_sum"):
         # first without the quantified sum axioms: their ground instances above (extensionality at fresh indices,
-        # unfolding at the upper end) are usually all that is needed, and with many sums around the quantified
-        # extensionality axiom makes the search diverge.  Fewer hypotheses: unsat here is a proof.
-        ids = set(a_.get_id() for a_ in sum_axioms)
-        lean_ = [a_ for a_ in base if a_.get_id() not in ids]
+        # unfolding at the upper end, empty ranges) are usually all that is needed, and with many sums around the
+        # quantified extensionality axiom makes the search diverge.  Fewer hypotheses: unsat here is a proof.
         if _hard_check(lean_ + list(more_insts), 3000 if _short_mode() else 12000, 3)[0] == "unsat":
             return idx, "proved", None, time.time() - t0, "z3", None
-        # the same, split on the condition of a conditional in the goal (a store into one slab of an array read back
-        # at an arbitrary index: `k == i` / `k != i`): both cases unsat is a proof, and each case is far easier
-        conds = _ite_conditions(goal)[:2]
-        if conds and not _short_mode():
-            import itertools as _it
-            ok = True
-            for signs in _it.product((True, False), repeat=len(conds)):
-                case = [c if sg else z3.Not(c) for c, sg in zip(conds, signs)]
-                if _hard_check(lean_ + list(more_insts) + case, 8000, 5)[0] != "unsat":
-                    ok = False
-                    break
-            if ok:
-                return idx, "proved", None, time.time() - t0, "z3", None
+    # split on the condition of a conditional in the goal (a store into one slab of an array read back at an arbitrary
+    # index: `k == i` / `k != i`): both cases unsat is a proof, and each case is far easier - often pure congruence
+    conds = _ite_conditions(goal)[:2]
+    if conds and not _short_mode():
+        import itertools as _it
+        ok = True
+        for signs in _it.product((True, False), repeat=len(conds)):
+            case = [c if sg else z3.Not(c) for c, sg in zip(conds, signs)]
+            try:
+                qf_ = [a_ for a_ in lean_ + list(more_insts) + case if not _has_quantifier(a_)]
+                if _hard_check(euf_abstract(qf_), 3000, grace_s=1.0)[0] == "unsat":
+                    continue
+            except ValueError:
+                pass
+            if _hard_check(lean_ + list(more_insts) + case, 8000, 5)[0] != "unsat":
+                ok = False
+                break
+        if ok:
+            return idx, "proved", None, time.time() - t0, "z3", None
     attempts = [(True, budget // 6, 0), (False, budget // 6, 0), (True, budget // 3, 7), (False, budget // 3, 7),
                 (True, budget, 13), (False, budget, 13)]
     if not more_insts:
